@@ -16,7 +16,7 @@
 From Coq Require Import NArith ZArith List Bool Lia.
 From Coq.Strings Require Import Byte.
 From Opcua Require Import Model.CodecTypes Model.Codec Model.CodecEq Proofs.CodecTotal Proofs.CodecCost Proofs.CodecCostCustoms
-  Proofs.CodecCostMain Proofs.CodecFuel Gen.UaTypes.
+  Proofs.CodecCostMain Proofs.CodecFuel Model.CodecWf Model.CodecWfAll Proofs.CodecSplit Proofs.CodecCustomsC Proofs.CodecDecWf Gen.UaTypes.
 Import ListNotations.
 Open Scope Z_scope.
 
@@ -72,6 +72,42 @@ Proof.
   intros t bs Ht E.
   pose proof (C02_partial_depth gen_reg t bs (S (length bs)) (proj1 C02_registry) Ht ltac:(lia)) as Hf.
   rewrite E in Hf. exact Hf.
+Qed.
+
+(* ---- the dimension product (variant.go: "the product is computed in 64 bit and checked after every step") ----
+   The model multiplies like Go: int64, wrapping modulo 2^64 (Codec.mul64).  The guard after every step is what keeps
+   the wrap unreachable: an accepted dimension vector has its TRUE product equal to the array length.  Without the
+   guard (seeded change C02-a) vectors such as 16 x 2^30 x 2^30 = 0 (mod 2^64) would pass the final comparison and
+   split() would build 2^64 nested slices: the hostile stream replays them. *)
+Theorem C02_dims_guard : forall ds c, forallb dim_ok ds = true -> dims_product ds 1 = Some c ->
+  c = Z.of_nat (nprod (map Z.to_nat ds)).
+Proof. intros ds c H E. exact (proj1 (dims_product_nprod ds c H E)). Qed.
+
+Theorem C02_dims_wrap_rejected :
+  mul64 (mul64 16 1073741824) 1073741824 = 0 /\
+  res_class (decode gen_reg 5 (TCustom CVariant) ([xc6] ++ le 4 0 ++ le 4 3 ++ le 4 16 ++ le 4 1073741824 ++ le 4 1073741824)) = 2 /\
+  res_class (decode gen_reg 5 (TCustom CVariant)
+               ([xc6] ++ le 4 (-1) ++ le 4 7 ++ le 4 3 ++ le 4 5 ++ le 4 17 ++ le 4 257 ++ le 4 641 ++ le 4 65537 ++ le 4 6700417)) = 2 /\
+  res_class (decode gen_reg 5 (TCustom CVariant)
+               ([xc6] ++ le 4 1 ++ le 4 7 ++ le 4 3 ++ le 4 11806113 ++ le 4 409891 ++ le 4 7623851)) = 2.
+Proof. vm_compute. repeat split; reflexivity. Qed.
+
+(* split() is only ever reached with the TRUE product of the dimensions equal to the number of decoded elements, which is at
+   most MaxVariantArrayLength: the reshaping builds exactly that many leaves (no hang), and its allocation is covered by
+   C02_partial_memory *)
+Theorem C02_split_only_exact : forall reg fuel bs m alen dl dims p rest al,
+  reg_desc_ok reg = true -> blen bs <= max_int32 ->
+  decode reg fuel (TCustom CVariant) bs = Ok (VVariant m alen dl dims (Some p)) rest al ->
+  bit m 7 = true -> 0 < dl ->
+  Z.of_nat (nprod (map Z.to_nat dims)) = alen /\ alen <= max_variant_array_length /\ forallb dim_ok dims = true.
+Proof.
+  intros reg fuel bs m alen dl dims p rest al Hreg Hs E B7 Hdl.
+  destruct (decode_wf reg Hreg fuel (TCustom CVariant) eq_refl bs _ rest al Hs E) as [[Hw _] _].
+  rewrite rwf0_variant in Hw. apply andb_true_iff in Hw. destruct Hw as [_ Hw].
+  destruct (m mod 64 =? 0); [apply andb_true_iff in Hw; destruct Hw as [_ Hn]; discriminate|].
+  apply andb_true_iff in Hw. destruct Hw as [Hh _].
+  destruct (hdr_array_facts m alen dl dims p B7 Hh) as [_ [Ha [_ [_ [Hge [_ [Hprod _]]]]]]].
+  destruct (dims_product_nprod dims alen Hge (Hprod Hdl)) as [Hc _]. split; [symmetry; exact Hc|]. split; [lia|exact Hge].
 Qed.
 
 (* ---- memory: the positive part ---- *)
@@ -177,6 +213,9 @@ Print Assumptions C02_registry.
 Print Assumptions C02_partial_depth.
 Print Assumptions C02_total.
 Print Assumptions C02_depth.
+Print Assumptions C02_dims_guard.
+Print Assumptions C02_dims_wrap_rejected.
+Print Assumptions C02_split_only_exact.
 Print Assumptions C02_cost_registry.
 Print Assumptions C02_partial_memory.
 Print Assumptions C02_fuel_monotone.
